@@ -80,3 +80,8 @@ package main
 //@   loop 1 invariant forall j in -10..10 :: -s <= j && j < i ==> !(len(code) == d && code == hotp(a, key, n + j, d))
 //@   loop 1 decreases s + 1 - i
 //@   loop 1 bound 21
+
+//@ func main.generateOTPURL(this, args) (r)
+//@   let ok = len(args) == 6 && sarg(args[0]) && sarg(args[1]) && sarg(args[2]) && sarg(args[3]) && sarg(args[4]) && sarg(args[5])
+//@   ensures[error] !(ok && (jsstring(args[0]) == "totp" || jsstring(args[0]) == "hotp")) ==> iserr(r)
+//@   ensures[string] jstype(r) == 4
